@@ -162,10 +162,11 @@ def check_gate(ctx, f, flt):
                     if o[0] == "rv" and o[1][0] == "un" and o[1][1] == "Not":
                         tt, ft = ft, tt
                         o = mir.origin(pn, o[1][2])
-                    if o[0] == "call" and o[1].is_("unwrap_or", "unwrap_or_default", "is_ok_and", "eq") and \
-                            any(mir.op_local(a) == res or res in {q[0] for q in af.backslice(pn, a)["places"]} for a in o[1].args):
+                    # `filter(..).unwrap_or(false)` / `.unwrap_or_default()`: true only for Ok(true)
+                    if o[0] == "call" and o[1].is_("unwrap_or", "unwrap_or_default") and o[1].args and \
+                            (mir.op_local(o[1].args[0]) == res or res in {q[0] for q in af.backslice(pn, o[1].args[0])["places"]}):
                         k = [mir.resolve_const(pn, a) for a in o[1].args[1:]]
-                        via = not o[1].is_("unwrap_or") or any(x is not None and x.get("v") in (False, 0) for x in k)
+                        via = o[1].is_("unwrap_or_default") or any(x is not None and x.get("v") in (False, 0) for x in k)
                 if (direct or via) and af.edge_dominates(pn, sb, tt, b):
                     ok = True
         ctx.ob("O-GATE", "item-only-when-filter-says-Ok(true)", ok,
